@@ -500,16 +500,17 @@ fn adder(field: &str, delta: &str) -> Box<dyn Fn(&mut [u8]) + Send + Sync> {
     }
 }
 
-/// number of runs that hit their wall-clock limit so far (all suites of this file)
-static HANGS: AtomicUsize = AtomicUsize::new(0);
+/// number of runs that hit their wall-clock limit so far: honest runs / runs with an altered message
+static HONEST_HANGS: AtomicUsize = AtomicUsize::new(0);
+static ATTACK_HANGS: AtomicUsize = AtomicUsize::new(0);
 
 fn run_blocking(field: &str, spec: Spec, interceptor: Option<Arc<Tamper>>, corrupt: Option<usize>) -> Result<Outcome, String> {
     let field = field.to_string();
     // honest runs finish within a second or two; a run in which an honest helper stopped may leave the others
     // waiting for its (never flushed) messages: that hang is an abort, and is not waited for long.
     // If runs keep hanging (a change that blocks every run), the limit drops so that the suite still ends.
-    let hangs = HANGS.load(Ordering::SeqCst);
-    let secs = match (corrupt.is_some(), hangs) {
+    let counter = if corrupt.is_some() { &ATTACK_HANGS } else { &HONEST_HANGS };
+    let secs = match (corrupt.is_some(), counter.load(Ordering::SeqCst)) {
         (true, 0..=5) => 12,
         (false, 0..=1) => 40,
         _ => 5,
@@ -524,7 +525,7 @@ fn run_blocking(field: &str, spec: Spec, interceptor: Option<Arc<Tamper>>, corru
         }
     });
     if r.is_err() {
-        HANGS.fetch_add(1, Ordering::SeqCst);
+        counter.fetch_add(1, Ordering::SeqCst);
     }
     r
 }
